@@ -423,7 +423,11 @@ def run_shard(shard):
         durs = [{"years": 1}, {"months": 1}, {"months": 13, "days": 3}, {"days": 1}, {"days": 45, "hours": 5},
                 {"hours": 25}, {"minutes": 61, "seconds": 1}, {"years": 1, "months": 2, "days": 3, "hours": 4,
                                                                "minutes": 5, "seconds": 6},
-                {"months": 1, "days": 1}, {"days": 29}, {"seconds": 86399}, {"years": 4}, {"weeks": 1}, {"weeks": 2}, {"weeks": 53}]
+                {"months": 1, "days": 1}, {"days": 29}, {"seconds": 86399}, {"years": 4}, {"weeks": 1}, {"weeks": 2}, {"weeks": 53},
+                # a year count together with 12 or more months, large single components
+                {"years": 1, "months": 14}, {"years": 2, "months": 12}, {"years": 3, "months": 18, "hours": 12},
+                {"years": 1, "months": 26, "days": 10, "hours": 2, "minutes": 30}, {"months": 25}, {"days": 400, "hours": 49},
+                {"hours": 100, "minutes": 150, "seconds": 4000}]
         for fa in shard["starts"]:
             acc.c["states"] += 1
             for dur in durs:
